@@ -340,6 +340,9 @@ def create (cap : Nat) : DM Unit := do
 /-- `sx127x_set_active_modem`: the packet in progress belongs to the modem that is left -/
 def setActiveModem (opmod modulation : Nat) (h : Handle) : Handle :=
   let h := if (h.activeModem = SX127x_MODULATION_LORA) ≠ (modulation = SX127x_MODULATION_LORA) then resetState h else h
+  -- an FSK/OOK receiver that is started begins with a new packet
+  let h := if modulation ≠ SX127x_MODULATION_LORA ∧ (opmod = SX127x_MODE_RX_CONT ∨ opmod = SX127x_MODE_RX_SINGLE) ∧ h.opmod ≠ opmod
+           then resetState h else h
   { h with activeModem := modulation, opmod := opmod }
 
 /-- `sx127x_set_opmod` -/
